@@ -65,6 +65,15 @@ CHECKS = {
  "C15": ("pure", "model_checking", "TLC checks Detect = IsDirective/DeclDirective and AddLine = Continues on every line over the property's token alphabet up to the bound and every (directive, candidate) pair, and emits the tables; detect_from / add_line of the real code are compared on every entry, and on random longer lines validated by TLC", "2.1, 5 C15",
          "token alphabet of the property; two placeholder characters stand for non-ASCII whitespace / letters; D5 window excluded", "TLA+ spec Grammar.tla checked with TLC; conformance: exhaustive tables replayed on the real functions + TLC validation of recorded calls (GrammarTrace.tla)"),
 }
+ENGINES["cli"] = dict(path="spec/Cli.tla lib/cli_engine.py harness/src/cases.rs", props=["C04", "C06", "C07", "C09", "C11", "C13", "C17", "C18"],
+                      kind="the command line layer (src/main.rs) as a token-by-token TLA+ parser: TLC checks its invariants on every argument vector in bounds x TXTPP_FILE states and prints the prescribed outcome / Config; every vector is run through the real binary and compared with the library under the prescribed Config (secondary engine of the listed checks)")
+CLI_PART = ("; plus the command line layer: every argument vector of Cli.tla (<=4, thorough 5 tokens; TXTPP_FILE unset/empty/set) run through the real binary "
+            "and compared with the library under the Config the specification prescribes (verdict, bytes, rewritten or not)")
+for _p in ENGINES["cli"]["props"]:
+    e = list(CHECKS[_p])
+    e[2] += CLI_PART
+    e[5] += " + Cli.tla (TLC) with per-vector conformance tests of the binary"
+    CHECKS[_p] = tuple(e)
 m = {
  "version": 1,
  "setup_cmd": "cd /verif/harness && cp -n /repo/Cargo.lock Cargo.lock; cargo build --offline --quiet && cargo build --offline --quiet --bin txtpp --manifest-path /repo/Cargo.toml --target-dir /verif/target/cli",
